@@ -118,8 +118,8 @@ func verifRefCanRead(buf []byte, types []ReadType) (bool, int) {
 // H_c03_canread: CanIRead(list) <=> every field wholly present; and then the Parse*
 // sequence returns the reference values without clamping.
 func H_c03_canread() {
-	k := nondet_choice("nfields", 4) // 0..3 fields
 	L := nondet_choice("L", 17)
+	k := nondet_choice("nfields", 4) // 0..3 fields
 	types := make([]ReadType, k)
 	for i := range types {
 		types[i] = ReadType(nondet_choice("type", 5))
